@@ -158,8 +158,16 @@ class _Backend:
         self.old = cu.ZLibBackend._zlib_backend
         if self.backend is not None:
             cu.set_zlib_backend(self.backend)
+        orig = self.orig = cu.ZLibDecompressor.decompress_sync
+
+        def recording(zself, data, max_length=0):
+            out = orig(zself, data, max_length)
+            INFLATED.append((max_length, len(out)))
+            return out
+        cu.ZLibDecompressor.decompress_sync = recording
 
     def __exit__(self, *a):
+        self.cu.ZLibDecompressor.decompress_sync = self.orig
         self.cu.set_zlib_backend(self.old)
 
 
@@ -399,9 +407,13 @@ def state_of(r):
         str(r._payload_len_flag), str(2 if r._compressed == -1 else r._compressed), cx])
 
 
+INFLATED: list = []     # (max_length asked, bytes returned) of every decompress_sync call, recorded by _Backend
+
+
 def run_impl(cfg, segs):
     """-> (list of per-feed (events, state, pause, ret_ok)), all events, final status"""
     mx, cmp_, dt = cfg
+    del INFLATED[:]
     im = Impl(mx, cmp_, dt)
     per = []
     allev = []
@@ -436,7 +448,7 @@ def segmentations(rng, stream: bytes, quick: bool):
     for i in singles:
         out.append(cut(stream, [i]))
     if n >= 3:
-        k = min(12 if quick else 200, (n - 1) * (n - 2) // 2)
+        k = min(12 if quick else 60, (n - 1) * (n - 2) // 2)
         seen = set()
         if (n - 1) * (n - 2) // 2 <= k:
             for i in range(1, n):
@@ -555,12 +567,12 @@ def gen_streams(ctx):
     """-> list of (label, stream bytes, compress, payload_total)"""
     rng = ctx.rng
     out = []
-    nvalid = 70 if ctx.quick else 1500
+    nvalid = 70 if ctx.quick else 300
     for _ in range(nvalid):
         comp = rng.random() < 0.5
         frs = gen_valid(rng, comp)
         out.append(("valid", b"".join(frs), comp, sum(len(f) for f in frs)))
-    ninj = 3 if ctx.quick else 40
+    ninj = 3 if ctx.quick else 8
     for _ in range(ninj):
         for comp in (False, True):
             base = gen_valid(rng, comp, nmsg=rng.randint(0, 2))
@@ -589,7 +601,7 @@ def gen_streams(ctx):
     for cnt in (3, 10, 40):
         out.append(("inflate", frame(2, bytes([cnt, 7]), rsv=4) + frame(1, bytes([cnt, 1, 2, 0]), rsv=4), True, cnt))
     # random bytes
-    for _ in range(60 if ctx.quick else 3000):
+    for _ in range(60 if ctx.quick else 1500):
         n = rng.randint(0, 24)
         b = bytearray(rng.randrange(256) for _ in range(n))
         if n >= 2 and rng.random() < 0.7:
@@ -634,6 +646,10 @@ def check_case(ctx, exe, label, cfg, stream, seglist, spec_rfc, answers):
         # oracle 1: same outcome as the RFC reference decoder on the whole stream (classified in one batch later)
         if (allev, status) != (sev, sst):
             _DEVIATIONS.append((case, cfg, stream, (allev, status), (sev, sst, scls)))
+        # oracle 3: inflation is bounded by the limit (memory under decompression)
+        if cfg[0] and any(n > cfg[0] + 1 for _, n in INFLATED):
+            ctx.violation(dict(case, kind="inflate-unbounded", inflated=max(n for _, n in INFLATED)),
+                          f"a compressed message was inflated to {max(n for _, n in INFLATED)} bytes with max_msg_size={cfg[0]}")
         # oracle 2: nothing of a finished frame is retained
         if stale is not None:
             ctx.violation(dict(case, kind="stale-fragments", feed=stale),
@@ -813,6 +829,9 @@ def suite_zlib(ctx):
                 for segs in segmentations(rng, stream, True)[: (6 if ctx.quick else 40)]:
                     per, allev, status, stale = run_impl(cfg, segs)
                     results.append((allev, status))
+                    if mx and any(n > mx + 1 for _, n in INFLATED):
+                        ctx.violation({"suite": "zlib", "kind": "inflate-unbounded", "cfg": list(cfg), "stream": stream.hex()},
+                                      f"real zlib: inflated to {max(n for _, n in INFLATED)} bytes with max_msg_size={mx}")
                     ran += 1
                     ctx.case(("zlib", cfg, stream, tuple(len(s) for s in segs)), nontrivial=bool(allev))
                 case = {"suite": "zlib", "cfg": list(cfg), "stream": stream.hex()}
@@ -932,6 +951,7 @@ def replay(ctx, case):
         segs = cut(stream, list(_acc(case["segs"]))[:-1]) if case.get("segs") else [stream]
         with _Backend(ToyBackend):
             per, allev, status, stale = run_impl(cfg, segs)
+            infl = list(INFLATED)
             one = run_impl(cfg, [stream])
         model = fw.run_model(exe, [run_line(cfg, segs), spec_line("rfc", cfg, stream), spec_line("aio", cfg, stream)])
         sev, sst, scls = parse_spec(model[1])
@@ -942,6 +962,13 @@ def replay(ctx, case):
             bad.append("depends on segmentation")
         if stale is not None:
             bad.append("stale fragment entries")
+        if cfg[0] and any(n > cfg[0] + 1 for _, n in infl):
+            bad.append(f"inflated {max(n for _, n in infl)} bytes with max_msg_size={cfg[0]}")
+        if not all(ok for _, _, _, ok in per):
+            bad.append("feed_data return value / size field")
+        mrun = parse_run(model[0])
+        if [(e, s_, p_) for e, s_, p_, _ in per] != mrun:
+            bad.append("model and implementation differ (correspondence)")
         return {"impl": [allev, status], "impl_one_shot": [one[1], one[2]], "reference_rfc": [sev, sst, scls],
                 "reference_aiohttp_profile": model[2], "model_run": model[0], "stale_fragment_feed": stale,
                 "violates": bool(bad), "why": bad}
